@@ -19,6 +19,7 @@ def main(path: str) -> None:
 
     _O.variant_source_class()  # the model's own Source / Origin subclasses must exist (be registered by name) in the reading process too
     _O.span_origin_class()
+    _O.tok_position_class()
     from pyoak.node import NODE_REGISTRY, ASTNode
     from pyoak.origin import SOURCE_OPTIMIZED_SERIALIZATION_KEY, Source
     from pyoak.serialize import SerializationOption
